@@ -54,9 +54,13 @@ def numField (j : J) (k : String) : Option Dec :=
   match field j k with
   | some (.num d) => some d
   | _ => none
+def strsOf : List J → Option (List String)
+  | [] => some []
+  | .str s :: rest => (strsOf rest).map (s :: ·)
+  | _ :: _ => none
 def strsField (j : J) (k : String) : Option (List String) :=
   match field j k with
-  | some (.arr l) => l.mapM fun x => match x with | .str s => some s | _ => none
+  | some (.arr l) => strsOf l
   | _ => none
 
 /-- same set of names -/
